@@ -275,6 +275,171 @@ def fault_worker(chunk, seed, tier):
         shutil.rmtree(tmp, ignore_errors=True)
     return part.result()
 
+# ---- read side: heterogeneous trajectories written by independent writers ---------------------------------------
+
+def read_menu(fmt):
+    """Frame texts (independent writers) that differ in everything a frame may differ in: atom count, blank/numeric
+    titles, optional sections and columns.  Each text is a complete single-frame file of the format."""
+    from ref import writers
+
+    ang = units.angstrom
+
+    def geo(n, k):
+        z = [[8, 1, 1, 6, 7][i % 5] for i in range(n)]
+        xyz = (np.arange(3.0 * n).reshape(n, 3) * 0.25 + 0.125 * (k + 1) - ((np.arange(n) % 2) * 0.75)[:, None]) * ang
+        return z, xyz
+
+    out = []
+    if fmt == "xyz":
+        for k, (n, title) in enumerate([(3, "frame A"), (1, ""), (2, "12345"), (4, "   padded   "), (3, "2")]):
+            z, xyz = geo(n, k)
+            out.append(writers.xyz(z, xyz, title, as_numbers=(k == 3)))
+    elif fmt == "sdf":
+        for k, (n, title, bonds) in enumerate([(3, "frame A", [(0, 1, 1), (0, 2, 1)]), (2, "", [(0, 1, 2)]), (1, "lonely", None), (4, "   ", [(0, 1, 1), (1, 2, 1), (2, 3, 3)]), (3, "3  2", None)]):
+            z, xyz = geo(n, k)
+            out.append(writers.sdf(z, xyz, title, bonds, comment="" if k % 2 else "a comment"))
+    elif fmt == "mol2":
+        for k, (n, title, bonds, charges) in enumerate([(3, "frame A", [(0, 1, "1"), (0, 2, "1")], True), (1, "single", None, False), (2, "****", [(0, 1, "ar")], True), (4, "12", None, True), (3, "frame E", [(1, 2, "am")], False)]):
+            z, xyz = geo(n, k)
+            out.append(writers.mol2(z, xyz, title, [round(-0.3 + 0.2 * i + 0.01 * k, 4) for i in range(n)] if charges else None, None, bonds))
+    elif fmt == "pdb":
+        for k, (n, title, bonds, het) in enumerate([(3, "frame A", [(0, 1), (0, 2)], False), (1, None, None, True), (2, "12345", None, False), (4, "long title", [(0, 3)], True), (3, None, [(1, 2)], False)]):
+            z, xyz = geo(n, k)
+            out.append(writers.pdb(z, xyz, title, bonds=bonds, hetatm=het, occ=[0.5 + 0.1 * k] * n if k % 2 else None))
+    elif fmt == "gromacs":
+        for k, (n, vel, t) in enumerate([(3, True, 0.5), (1, False, None), (2, True, 1.0), (4, False, 2.5), (3, True, None)]):
+            _z, xyz = geo(n, k)
+            out.append(writers.gro(np.round(xyz / units.nanometer, 3) * units.nanometer, f"frame {k}", None if t is None else t * units.picosecond,
+                                   vel_au=np.full((n, 3), 0.25 * (k + 1)) * units.nanometer / units.picosecond if vel else None, cell_bohr=np.diag([3.0 + k, 4.0, 5.0]) * units.nanometer))
+    elif fmt == "extxyz":
+        variants = [dict(), dict(species_as_z=True), dict(extra_cols={"Z": ("I", 1, None)}), dict(masses=True), dict(forces=True, cell=False), dict(extra_cols={"tag": ("S", 1, None), "Z": ("I", 1, None)}, energy=None)]
+        for k, v in enumerate(variants):
+            n = [3, 2, 3, 1, 4, 2][k]
+            z, xyz = geo(n, k)
+            cols = None
+            if v.get("extra_cols"):
+                cols = {name: (dt, nc, [int(zi) for zi in z] if name == "Z" else [f"lab{i}" for i in range(n)]) for name, (dt, nc, _) in v["extra_cols"].items()}
+            out.append(writers.extxyz(z, xyz, None if v.get("cell") is False else np.diag([5.0 + k, 6.0, 7.0]) * ang, energy=v.get("energy", -1.5 * (k + 1)), charge=1.0 if k == 1 else None,
+                                      masses_au=np.array([1.5 * (i + 1) for i in range(n)]) * units.amu if v.get("masses") else None,
+                                      forces=np.arange(3.0 * n).reshape(n, 3) * 0.01 if v.get("forces") else None, species_as_z=v.get("species_as_z", False), extra_cols=cols))
+    return out
+
+
+READ_FORMATS = {"xyz": "r.xyz", "sdf": "r.sdf", "mol2": "r.mol2", "pdb": "r.pdb", "gromacs": "r.gro", "extxyz": "r.extxyz"}
+
+
+def fresh_single_snapshots(fmt, texts, tmp):
+    """Load every frame text alone, each in its own forked process (no state can leak from one load to the next)."""
+    import pickle
+
+    from iodata import load_one
+
+    snaps = []
+    for t in texts:
+        path = str(tmp / ("single_" + READ_FORMATS[fmt]))
+        with open(path, "w") as fh:
+            fh.write(t)
+        r, w = os.pipe()
+        pid = os.fork()
+        if pid == 0:
+            code = 0
+            try:
+                os.close(r)
+                with warnings.catch_warnings():
+                    warnings.simplefilter("ignore")
+                    try:
+                        res = ("ok", roundtrip.snapshot(load_one(path)))
+                    except Exception as exc:  # noqa: BLE001
+                        res = ("exc", f"{exc!r} caused by {exc.__cause__!r}")
+                with os.fdopen(w, "wb") as fh:
+                    pickle.dump(res, fh)
+            except BaseException:  # noqa: BLE001
+                code = 1
+            finally:
+                os._exit(code)
+        os.close(w)
+        with os.fdopen(r, "rb") as fh:
+            data = fh.read()
+        os.waitpid(pid, 0)
+        snaps.append(pickle.loads(data) if data else ("exc", "child failed"))
+    return snaps
+
+
+def read_worker(chunk, seed, tier):
+    from iodata import load_one
+    from mc.core import Part, make_scratch
+
+    part = Part(seed, tier)
+    tmp = make_scratch()
+    try:
+        for fmt, seq, texts, singles in chunk:
+            part.count()
+            info = {"format": fmt, "sequence": list(seq), "side": "read"}
+            part.nontrivial(repr(info))
+            if len(part.samples) < 1 and len(seq) == 3:
+                part.sample(info)
+            path = str(tmp / READ_FORMATS[fmt])
+            with open(path, "w") as fh:
+                fh.write("".join(texts[k] for k in seq))
+            got, exc, _ = load_frames(path)
+            sig0 = f"{fmt}:load_many:independent-writer"
+            if exc is not None:
+                part.outcome("read-sequences", "RAISED")
+                part.violation("frames", f"{sig0}:raises-{type(exc).__name__}", info, f"{fmt}: trajectory of frames {list(seq)} (each loads alone): {exc!r} caused by {exc.__cause__!r}")
+                continue
+            if len(got) != len(seq):
+                part.outcome("read-sequences", "FRAME-COUNT")
+                part.violation("frames", f"{sig0}:frame-count", info, f"{fmt}: the file holds {len(seq)} frames (menu {list(seq)}), load_many yields {len(got)} without error")
+                continue
+            for i, (k, o) in enumerate(zip(seq, got)):
+                d = roundtrip.first_difference(singles[k][1], roundtrip.snapshot(o))
+                if d:
+                    part.outcome("read-sequences", "DIFFERS")
+                    part.violation("frames", f"{sig0}:frame-differs-from-single-load", info, f"{fmt}: frame {i} (menu {k}) of the trajectory {list(seq)} differs from the same text loaded alone in a fresh process: {d}")
+                    break
+            else:
+                part.outcome("read-sequences", "identical-to-single")
+                # ... and a single load afterwards, in this (now used) process, still gives the fresh-process result
+                k = seq[-1]
+                with open(path, "w") as fh:
+                    fh.write(texts[k])
+                with warnings.catch_warnings():
+                    warnings.simplefilter("ignore")
+                    try:
+                        d = roundtrip.first_difference(singles[k][1], roundtrip.snapshot(load_one(path)))
+                    except Exception as e:  # noqa: BLE001
+                        d = repr(e)
+                if d:
+                    part.violation("frames", f"{sig0}:single-load-depends-on-earlier-loads", info, f"{fmt}: frame text {k} loaded alone after the trajectory {list(seq)} differs from a fresh-process load: {d}")
+    finally:
+        shutil.rmtree(tmp, ignore_errors=True)
+    return part.result()
+
+
+def read_sequences(ctx):
+    from mc.pool import pmap
+
+    tmp = ctx.scratch()
+    jobs = []
+    nseq = 0
+    for fmt in READ_FORMATS:
+        texts = read_menu(fmt)
+        singles = fresh_single_snapshots(fmt, texts, tmp)
+        usable = []
+        for k, sres in enumerate(singles):
+            ctx.count()
+            if sres[0] != "ok":
+                ctx.violation("frames", f"{fmt}:load_one:independent-writer-frame-rejected", {"format": fmt, "frame": k}, f"{fmt}: menu frame {k} alone is rejected: {sres[1]}")
+            else:
+                usable.append(k)
+        maxlen = 4 if ctx.thorough else 3
+        for n in range(1, maxlen + 1):
+            for seq in itertools.product(usable, repeat=n):
+                jobs.append((fmt, seq, texts, singles))
+                nseq += 1
+    pmap(ctx, read_worker, jobs, chunk=64)
+    ctx.cov.update(read_sequences=nseq, read_formats=sorted(READ_FORMATS))
+
 
 def fchk_trajectories(ctx):
     from iodata import load_many
@@ -354,13 +519,16 @@ def run(ctx):
             fjobs.append((fmt, fname, texts, "truncate"))
             fjobs.append((fmt, fname, texts, "corrupt"))
     pmap(ctx, fault_worker, fjobs, chunk=1)
+    read_sequences(ctx)
     fchk_trajectories(ctx)
     ctx.cov.update(sequences=len(seqs), dump_jobs=len(jobs), fault_files=len(fjobs))
     ctx.exhaustive = True
     ctx.rule = (
         f"all frame sequences of length <= {maxlen} (thorough: <= 4 plus one 50-frame sequence) over a menu of 6 frames (1/2/3/11 atoms, titles present/absent/numeric, bonds, charges) x 4 dump_many formats x "
         "{list, generator, generator raising at every item}; reloaded frames are compared bit-exactly with a per-frame dump_one+load_one; pulls and writes share one event log (laziness). "
-        "Fault enumeration on 2-3 multi-frame files per format (XYZ, PDB, MOL2, SDF from dump_one texts; GRO and extXYZ from independent mini writers): truncation after every line, "
+        "Read side: all sequences of length <= 3 (thorough: 4) over 5-6 heterogeneous frame texts per format from independent writers (blank/numeric titles, optional bond/charge/velocity sections, "
+        "differing extXYZ Properties lists) for XYZ, SDF, MOL2, PDB, GRO, extXYZ; every yielded frame is compared bit-exactly with the same text loaded alone in a fresh forked process, and a single load "
+        "after the trajectory must still agree with it. Fault enumeration on 2-3 multi-frame files per format (XYZ, PDB, MOL2, SDF from dump_one texts; GRO and extXYZ from independent mini writers): truncation after every line, "
         "every numeric field of every non-last frame replaced by each of {x, 1e, -, 999999}. FCHK optimisation/IRC/scan trajectories of the corpus against an independent parse of counts and energies."
     )
     ctx.assumptions += ["a truncated or corrupted *last* frame may be dropped silently (indistinguishable from a shorter file); the statement only forbids yielding a partial frame without warning/error",
